@@ -239,6 +239,7 @@ Proof.
     destruct l as [|[wf u i tt0| | | | | |] rest]; try apply F. destruct wf; [|apply F].
     apply appends_bind; [apply appends_modst; qsame|]. intros ?. apply appends_bind; [apply ap_connect_event|]. intros ?.
     unfold after_open_polling. apply appends_bind; [apply ap_receive_all|]. intros ?. apply appends_bind; [apply appends_getst|]. intros s0.
+    destruct (state s0); try apply ap_conn_done.
     destruct (upgrades_ws s0 && existsb _ (transports s0)); [apply ap_ws_connect|]. apply appends_bind; [apply ap_start_loops | intros ?; apply ap_conn_done].
   - unfold wsconn_reply. apply appends_bind; [apply appends_getst|]. intros s0.
     destruct (if t_tout e then Some false else alookup c (wsconn_result s0)) as [[|]|]; [| |apply appends_ret].
